@@ -374,6 +374,14 @@ func mismatch(t *rapid.T, m *ref.Node, kind string) *ref.Node {
 	switch kind {
 	case "renamed":
 		x.Name = "zz_other"
+	case "duplicate":
+		// same number of tips: one taxon is missing, another one is there twice
+		y := tips[rapid.IntRange(0, len(tips)-1).Draw(t, "mtip2")]
+		if y == x {
+			x.Name = "zz_other"
+		} else {
+			x.Name = y.Name
+		}
 	case "added":
 		x.Ch = []*ref.Node{{Name: x.Name, Len: ref.F(1)}, {Name: "zz_extra", Len: ref.F(1)}}
 		x.Name = ""
@@ -423,12 +431,12 @@ func checkRej(c RejCase) error {
 func TestC08Reject(t *testing.T) {
 	h.Run(t, h.Spec[RejCase]{
 		Property: "C08", Name: "reject", Quick: 3000, Thorough: 100000,
-		Rule: "a compared tree with one tip renamed / one tip added / one tip removed at a drawn position of a stream of 1..5 otherwise identical trees; the record of that tree must carry an error, the others must not; every case is non-trivial",
+		Rule: "a compared tree with one tip renamed / one tip added / one tip removed / one tip carrying the name of another one (same number of tips) at a drawn position of a stream of 1..5 otherwise identical trees; the record of that tree must carry an error, the others must not; every case is non-trivial",
 		Gen: func(t *rapid.T, thorough bool) RejCase {
 			o := baseOpts(thorough)
 			o.MinTips = 5
 			base := gen.Tree(t, o)
-			kind := rapid.SampledFrom([]string{"renamed", "added", "removed"}).Draw(t, "kind")
+			kind := rapid.SampledFrom([]string{"renamed", "added", "removed", "duplicate"}).Draw(t, "kind")
 			return RejCase{Ref: base, Comp: mismatch(t, base, kind), Kind: kind, Pos: rapid.IntRange(0, 4).Draw(t, "pos"), N: rapid.IntRange(1, 5).Draw(t, "n"), Tips: rapid.Bool().Draw(t, "tips")}
 		},
 		Check:    checkRej,
